@@ -12,12 +12,15 @@ var (
 
 type NonTermination struct{ Ticks int }
 
+//go:norace
 func (n NonTermination) Error() string {
 	return fmt.Sprintf("NON-TERMINATION after %d loop iterations", n.Ticks)
 }
 
+//go:norace
 func ResetTicks() { Ticks = 0 }
 
+//go:norace
 func Tick() {
 	Ticks++
 	if Ticks > TickLimit {
@@ -26,6 +29,7 @@ func Tick() {
 }
 
 // Guard runs f and converts a tick overrun or any other panic into a value.
+//go:norace
 func Guard(f func()) (nonterm bool, panicked any) {
 	ResetTicks()
 	defer func() {
